@@ -6,6 +6,7 @@ import (
 	"os"
 	"os/exec"
 	"path/filepath"
+	"strconv"
 	"strings"
 	"time"
 	"unicode/utf8"
@@ -321,6 +322,38 @@ func c14Check(cs c14Case) (kind, detail string) {
 			if perr != "" || fmt.Sprintf("%q", got) != fmt.Sprintf("%q", rows) {
 				return "encode", fmt.Sprintf("objects %q are written as %q, read back as %q %s", rows, out, got, perr)
 			}
+		case "encode-objects-permuted":
+			// the later objects list their keys in another order (Prefs: the order, as column numbers): a column is found by its name
+			doc := &val.V{K: val.Seq}
+			for ri, r := range rows[1:] {
+				obj := &val.V{K: val.Map}
+				order := make([]int, len(r))
+				for i := range order {
+					order[i] = i
+				}
+				if ri > 0 {
+					for i, t := range strings.Split(cs.Prefs, ",") {
+						order[i], _ = strconv.Atoi(t)
+					}
+				}
+				for _, i := range order {
+					obj.Keys = append(obj.Keys, val.StrV(rows[0][i]))
+					obj.Vals = append(obj.Vals, val.StrV(r[i]))
+				}
+				doc.Vals = append(doc.Vals, obj)
+			}
+			p2 := yqlib.NewDefaultCsvPreferences()
+			if cs.Format == "tsv" {
+				p2 = yqlib.NewDefaultTsvPreferences()
+			}
+			out, err, pan := impl.Print([]*yqlib.CandidateNode{vNode(doc)}, yqlib.NewCsvEncoder(p2))
+			if pan != nil || err != nil {
+				return "encode-error", fmt.Sprintf("%v %v", err, pan)
+			}
+			got, perr := ownCSVParse(out, sep)
+			if perr != "" || fmt.Sprintf("%q", got) != fmt.Sprintf("%q", rows) {
+				return "encode", fmt.Sprintf("objects with the columns %q, the later ones listing their keys in the order %s, are written as %q, read back as %q %s", rows, cs.Prefs, out, got, perr)
+			}
 		case "decode":
 			if len(rows) < 2 {
 				return "skip", ""
@@ -626,6 +659,37 @@ func c14Run(c *fw.Ctx) error {
 			run(c14Case{Format: "csv", Dir: "decode", Data: string(b), Prefs: "semicolon"}, int64(len(f))*1e6+int64(fi), "field:"+c14CharClass(f))
 		}
 	}
+	// objects whose keys come in another order than the first one's: every permutation of 3 and of 4 columns
+	var perms func(n int) [][]int
+	perms = func(n int) [][]int {
+		if n == 0 {
+			return [][]int{{}}
+		}
+		var out [][]int
+		for _, p := range perms(n - 1) {
+			for i := 0; i <= len(p); i++ {
+				q := append(append(append([]int{}, p[:i]...), n-1), p[i:]...)
+				out = append(out, q)
+			}
+		}
+		return out
+	}
+	for _, n := range []int{2, 3, 4} {
+		header, r1, r2, r3 := []string{}, []string{}, []string{}, []string{}
+		for i := 0; i < n; i++ {
+			header, r1, r2, r3 = append(header, fmt.Sprintf("h%d", i)), append(r1, fmt.Sprintf("a%d", i)), append(r2, fmt.Sprintf("b%d", i)), append(r3, fmt.Sprintf("c%d", i))
+		}
+		b, _ := json.Marshal([][]string{header, r1, r2, r3})
+		for pi, p := range perms(n) {
+			var ps []string
+			for _, i := range p {
+				ps = append(ps, strconv.Itoa(i))
+			}
+			for _, fm := range []string{"csv", "tsv"} {
+				run(c14Case{Format: fm, Dir: "encode-objects-permuted", Data: string(b), Prefs: strings.Join(ps, ",")}, int64(n)*1e6+int64(pi), "key-order")
+			}
+		}
+	}
 	// lua
 	lal := []string{"a", "\"", "'", "\\", "\n", "]]", "\x7f", "é", "\r", "\x01", "1", "\t", "\x00z"}
 	lstr := c14Strings(lal, 2)
@@ -665,7 +729,7 @@ func c14Run(c *fw.Ctx) error {
 			return err
 		}
 	}
-	c.Res.Bound = "base64/uri: every byte string of length <= 2 (quick: one third of the pairs) and length 3 over a 24-byte core (thorough: every 3-byte string, 2^24); the decode operators over every pair and triple of a 6-string pool incl. the empty string in one call; xml also with two non-default attribute-prefix/content-name settings; properties: keys x values over all strings of length <= 2 over 13 characters (separators, comment signs, backslash, blanks, line feed, non-ASCII), 3 directions; csv/tsv: fields of length <= 2 over 10 characters in 4 table shapes, 3 separators; lua: strings of length <= 2 over 13 atoms, 12 hazardous keys, U(3), quoted and unquoted keys; xml: element trees with attributes/text/repeated children over hazardous text; toml: mini-grammar documents; to_json/from_json and to_yaml/from_yaml on U(3)"
+	c.Res.Bound = "base64/uri: every byte string of length <= 2 (quick: one third of the pairs) and length 3 over a 24-byte core (thorough: every 3-byte string, 2^24); the decode operators over every pair and triple of a 6-string pool incl. the empty string in one call; xml also with two non-default attribute-prefix/content-name settings; properties: keys x values over all strings of length <= 2 over 13 characters (separators, comment signs, backslash, blanks, line feed, non-ASCII), 3 directions; csv/tsv: fields of length <= 2 over 10 characters in 4 table shapes, 3 separators, objects listing their keys in every order of 2, 3 and 4 columns; lua: strings of length <= 2 over 13 atoms, 12 hazardous keys, U(3), quoted and unquoted keys; xml: element trees with attributes/text/repeated children over hazardous text; toml: mini-grammar documents; to_json/from_json and to_yaml/from_yaml on U(3)"
 	return nil
 }
 
